@@ -1347,8 +1347,11 @@ def layoutpipe_family(tier, seed):
                 return ["outer", rnd.choice(["in1", "in2", "..."])]
             if c < 0.6:
                 return ["..."]
-            if c < 0.7:
+            if c < 0.66:
                 return ["n", "m", "..."]
+            if c < 0.7:
+                # the same container KEY at different places of the tree (outer / n.outer / outer.n)
+                return rnd.choice([["n", "outer", "..."], ["outer", "n", "..."], ["n", "m", "outer", "..."]])
             if c < 0.78:
                 return None
             if c < 0.9:
@@ -1434,6 +1437,13 @@ def layoutpipe_family(tier, seed):
         {"nms": [{"omit_default": True}]},
         {"nms": [{"extra_in": "rest", "extra_out": "rest"}]},
         {"nms": [{"extra_in": "forbid", "map": [{"t": "dict", "m": {"a": ["n", "a"], "b_": ["n", "b"]}}]}]},
+        # one container KEY at several places of the tree, container keys that differ only in punctuation, interleaved
+        # declaration order of sibling containers below the top level, nested lists
+        {"nms": [{"map": [{"t": "dict", "m": {"a": ["prof", "addr", "x"], "b_": ["prof", "comp", "addr", "y"], "c_d": ["prof", "comp", "z"]}}]}]},
+        {"nms": [{"map": [{"t": "dict", "m": {"a": ["k-1", "x"], "b_": ["k_1", "y"], "c_d": ["k.1", "z"]}}]}]},
+        {"nms": [{"map": [{"t": "dict", "m": {"a": ["x", "p", "a"], "b_": ["x", "q", "b"], "c_d": ["x", "p", "c"], "e__": ["x", "q", "e"]}}]}]},
+        {"nms": [{"map": [{"t": "dict", "m": {"a": [0], "b_": [1, 0], "c_d": [2, 0], "e__": [2, 1, 0], "long_name_x": [2, 1, 1], "_p": [1, 1]}}]}]},
+        {"nms": [{"omit_default": True, "map": [{"t": "dict", "m": {"a": ["o", "i", "a"], "c_d": ["o", "i", "c"], "e__": ["o", "j", "i", "e"]}}]}]},
     ]
     n_rand = 120 if tier == "quick" else 1200
     cfgs = fixed + [{"nms": [gen_nm() for _ in range(rnd.choice([1, 1, 2]))]} for _ in range(n_rand)]
